@@ -268,14 +268,23 @@ func (w *World) instrMods(in ssa.Instruction, m map[string]bool) {
 			addMod(m, "P$"+w.sortOf(et, d), false)
 		}
 	case *ssa.MakeSlice:
-		addMod(m, "S$"+w.sortOf(types.Unalias(in.Type()).Underlying().(*types.Slice).Elem(), d), false)
+		if st, ok := types.Unalias(in.Type()).Underlying().(*types.Slice); ok {
+			addMod(m, "S$"+w.sortOf(st.Elem(), d), false)
+		}
 	case *ssa.MakeMap:
-		mt := types.Unalias(in.Type()).Underlying().(*types.Map)
+		mt, ok := types.Unalias(in.Type()).Underlying().(*types.Map)
+		if !ok {
+			return
+		}
 		ks, vs := w.sortOf(mt.Key(), d), w.sortOf(mt.Elem(), d)
 		addMod(m, "M$has$"+ks+"$"+vs, false)
 		addMod(m, "M$val$"+ks+"$"+vs, false)
 	case *ssa.MapUpdate:
-		mt := types.Unalias(in.Map.Type()).Underlying().(*types.Map)
+		mt, ok := types.Unalias(in.Map.Type()).Underlying().(*types.Map)
+		if !ok {
+			addMod(m, "*", true)
+			return
+		}
 		ks, vs := w.sortOf(mt.Key(), d), w.sortOf(mt.Elem(), d)
 		wr := !isLocalFresh(in.Map)
 		addMod(m, "M$has$"+ks+"$"+vs, wr)
@@ -290,15 +299,24 @@ func (w *World) instrMods(in ssa.Instruction, m map[string]bool) {
 		if bi, ok := c.Value.(*ssa.Builtin); ok {
 			switch bi.Name() {
 			case "append":
-				st := types.Unalias(c.Args[0].Type()).Underlying().(*types.Slice)
-				addMod(m, "S$"+w.sortOf(st.Elem(), d), true)
+				if st, ok := types.Unalias(c.Args[0].Type()).Underlying().(*types.Slice); ok {
+					addMod(m, "S$"+w.sortOf(st.Elem(), d), true)
+				} else {
+					addMod(m, "*", true)
+				}
 			case "copy":
-				st := types.Unalias(c.Args[0].Type()).Underlying().(*types.Slice)
-				addMod(m, "S$"+w.sortOf(st.Elem(), d), !isLocalFresh(c.Args[0]))
+				if st, ok := types.Unalias(c.Args[0].Type()).Underlying().(*types.Slice); ok {
+					addMod(m, "S$"+w.sortOf(st.Elem(), d), !isLocalFresh(c.Args[0]))
+				} else {
+					addMod(m, "*", true)
+				}
 			case "delete":
-				mt := types.Unalias(c.Args[0].Type()).Underlying().(*types.Map)
-				ks, vs := w.sortOf(mt.Key(), d), w.sortOf(mt.Elem(), d)
-				addMod(m, "M$has$"+ks+"$"+vs, true)
+				if mt, ok := types.Unalias(c.Args[0].Type()).Underlying().(*types.Map); ok {
+					ks, vs := w.sortOf(mt.Key(), d), w.sortOf(mt.Elem(), d)
+					addMod(m, "M$has$"+ks+"$"+vs, true)
+				} else {
+					addMod(m, "*", true)
+				}
 			}
 		}
 	}
